@@ -270,6 +270,21 @@ func (g *gen) soup(n int, decimals bool) []byte {
 			a.op(kind)
 			depth++
 		case 10: // CREATE / CREATE2 with init code copied from this code or from call data
+			if g.t.Bool(2, 5) {
+				// a self-contained init code that jumps, written to memory word by
+				// word: several of these with different lengths and targets in
+				// one call tree
+				init := jumpy(jumpPCs[g.t.Int(len(jumpPCs))], g.t.Pick(5, 4, 3, 1), []byte{byte(evm.STOP)})
+				padded := common.RightPadBytes(init, (len(init)+31)/32*32)
+				for o := 0; o < len(padded); o += 32 {
+					a.b = append(a.b, byte(evm.PUSH32))
+					a.b = append(a.b, padded[o:o+32]...)
+					a.pushU(uint64(o)).op(evm.MSTORE)
+				}
+				a.pushU(uint64(len(init))).pushU(0).pushU(0).op(evm.CREATE)
+				depth++
+				break
+			}
 			src := evm.CODECOPY
 			if g.t.Bool(1, 3) {
 				src = evm.CALLDATACOPY
@@ -381,11 +396,12 @@ const (
 	failOOG
 	failUnderflow
 	failBadJump
-	failNone // control group: the child succeeds
+	failNone    // control group: the child succeeds
+	failReturns // (init code) RETURN retSize bytes of runtime code
 	nFail
 )
 
-var failNames = []string{"revert", "invalid", "oog", "stack-underflow", "bad-jump", "none"}
+var failNames = []string{"revert", "invalid", "oog", "stack-underflow", "bad-jump", "none", "returns-code"}
 
 // childSpec is what the child frame does before it fails.
 type childSpec struct {
@@ -398,6 +414,7 @@ type childSpec struct {
 	create   bool // CREATE of a tiny contract with value 0
 	suicideG bool // call the grandchild, which self-destructs to the beneficiary
 	fail     int
+	retSize  int // failReturns: number of code bytes the init code returns
 }
 
 // child builds the child code. All effects leave the stack empty.
@@ -444,6 +461,8 @@ func (g *gen) child(sp childSpec, w *worldSpec) []byte {
 		a.op(evm.POP)
 	case failBadJump:
 		a.pushU(1).op(evm.JUMP) // position 1 is push data, never a JUMPDEST
+	case failReturns:
+		a.pushU(uint64(sp.retSize)).pushU(0).op(evm.RETURN)
 	default:
 		a.op(evm.STOP)
 	}
